@@ -104,14 +104,7 @@ def run(F, R):
     # P10: the device is given exactly the addresses obtained from DMA allocation: the transports' queue_set write the
     # three area addresses they receive - each 64-bit address split into its own low/high words - and nothing else
     # (register traces shared with C10.M2 / C11.W3)
-    from . import C10 as _c10, C11 as _c11
-    _qs = lambda inst: 'queue_set' in inst
-    _c10.ONLY_OPS = {'queue_set'}
-    try:
-        _c10.run(F, RuleProxy(R, {'M2': 'P10'}, only=_qs))
-    finally:
-        _c10.ONLY_OPS = None
-    _c11.run(F, RuleProxy(R, {'W3': 'P10'}, only=_qs))
+    transport_registration_rule(F, R, 'P10')
     # P12: every request a blocking driver loop shared is also popped (and so unshared) before it returns success, and
     # in-flight bookkeeping is released only after the pop (C20.Z8 / C20.Z7)
     from .C20 import z7_release_after_pop, z8_pcm_complete
